@@ -165,7 +165,7 @@ Definition bump (st : fstate) (i : nat) (k : Z) : fstate :=
   end.
 
 (* ---- one call ---------------------------------------------------------------- *)
-Definition spec_step (st : fstate) (op : fop) : fstate * sres :=
+Definition fspec_step (st : fstate) (op : fop) : fstate * sres :=
   match op with
   | Open name flag perm =>
       match access_of flag with
@@ -351,12 +351,12 @@ Definition spec_step (st : fstate) (op : fop) : fstate * sres :=
       end
   end.
 
-Fixpoint spec_run (st : fstate) (ops : list fop) : fstate * list sres :=
+Fixpoint fspec_run (st : fstate) (ops : list fop) : fstate * list sres :=
   match ops with
   | [] => (st, [])
   | op :: ops' =>
-      let '(st1, r) := spec_step st op in
-      let '(st2, rs) := spec_run st1 ops' in
+      let '(st1, r) := fspec_step st op in
+      let '(st2, rs) := fspec_run st1 ops' in
       (st2, r :: rs)
   end.
 
